@@ -34,7 +34,10 @@ MUTANTS = [
     (E, "._update_to_expm_ket", "factor = -1j * (t - self.t)", "factor = -1j * (t - self.t0)", "expect-fail"),
     (E, "._update_to_expm_ket", "factor = -1j * (t - self.t)", "factor = 1j * (t - self.t)", "expect-fail"),
     (E, "._update_to_expm_ket", "factor = -1j * (t - self.t)", "factor = -1j * t", "expect-fail"),
-    (E, "._update_to_expm_ket", "            **self.expm_opts,\n        )\n        self._t = t", "            **self.expm_opts,\n        )", "expect-fail"),
+    (E, "._update_to_expm_ket", "                )\n            )\n        self._t = t", "                )\n            )", "expect-fail"),
+    # the one-sided evolution of a density operator put back (finding 5), and a wrong second pass
+    (E, "._update_to_expm_ket", "        if self._isdop:\n            # a density operator evolves on both sides", "        if False:\n            # a density operator evolves on both sides", "expect-fail"),
+    (E, "._update_to_expm_ket", "                    dag(self._pt),\n", "                    self._pt,\n", "expect-fail"),
     (E, "._update_to_expm_ket", "            self._pt,\n            backend=self.expm_backend,", "            self._p0,\n            backend=self.expm_backend,", "expect-fail"),
     (E, "._update_to_expm_ket", "self._step_callback(t, self._pt, self._ham)", "self._step_callback(self.t0, self._pt, self._ham)", "expect-fail"),
     (E, "._update_to_expm_ket", "factor = -1j * (t - self.t)", "self._t = t\n        factor = -1j * (t - self.t)", "expect-fail"),
@@ -120,9 +123,7 @@ MUTANTS = [
     (E, "Evolution.__init__", "self._start_integrator(ham, int_small_step)\n            self._ham = ham", "self._start_integrator(ham, int_small_step)", "expect-fail"),
     (E, "Evolution.__init__", 'elif method == "integrate":\n            self._start_integrator', 'elif method == "integrate" and not self._isdop:\n            self._start_integrator', "expect-fail"),
     (E, "Evolution.__init__", "self._method = method\n", 'self._method = "integrate"\n', "expect-fail"),
-    # DESIGN finding 5 (fixed in /repo by a fix: commit): removing the rejection of density operators must fail again
-    (E, "Evolution.__init__", "            elif self._isdop:\n                raise TypeError(\n                    \"You can't use the 'expm' method \"\n                    \"with a density operator initial state.\"\n                )\n",
-     "", "expect-fail"),
+    # (DESIGN finding 5: the repair is now the second, adjoint pass in _update_to_expm_ket; its reverts are listed there)
 ]
 
 
